@@ -62,7 +62,9 @@ package v0
 // of the node's OWN state, and ValidateBlock accepted the block against that state.
 //@ func BlockchainReactor.poolRoutine
 //@   requires wf: bcR.initialState.Validators != nil && wfPowers(bcR.initialState.Validators) && wfCached(bcR.initialState.Validators)
+//@   requires app: abciPhase == 0 && !mockActive && appH == bcR.initialState.LastBlockHeight
 //@   loop 1 invariant wf: state.Validators != nil && wfPowers(state.Validators) && wfCached(state.Validators)
+//@   loop 1 invariant app: abciPhase == 0 && !mockActive && appH == state.LastBlockHeight
 //@   atcall BlockStore.SaveBlock committed: commitVerified(state.Validators, chainID, types.Block.Hash(arg1), arg2.total, arg2.hash, arg1.Header.Height, arg3)
 //@   atcall BlockStore.SaveBlock validated: blockValidated(arg1, state.Validators, state.LastBlockHeight)
 //@   atcall BlockStore.SaveBlock pair: arg1 == first && arg3 == second.LastCommit
